@@ -330,6 +330,7 @@ func c19Effects(run *ev.Run) (int, error) {
 		name, src string
 		wantOK    bool
 		desc      string
+		wantText  string // must occur verbatim in the generated output
 	}
 	var effs []eff
 	types := "type In struct{ A int }\ntype Out struct{ A int; D int }\ntype Out2 struct{ A string }\n"
@@ -337,7 +338,7 @@ func c19Effects(run *ev.Run) (int, error) {
 	add := func(desc, doc, mdoc string, wantOK bool) {
 		n++
 		nm := fmt.Sprintf("X%03d", n)
-		effs = append(effs, eff{nm, doc + "type " + nm + " interface {\n" + mdoc + "\tConvert(source In) Out\n}\n", wantOK, desc})
+		effs = append(effs, eff{nm, doc + "type " + nm + " interface {\n" + mdoc + "\tConvert(source In) Out\n}\n", wantOK, desc, ""})
 	}
 	for _, form := range c19Forms() {
 		star := form.name == "block-stars"
@@ -362,7 +363,7 @@ func c19Effects(run *ev.Run) (int, error) {
 			}
 			src := "// goverter:converter\n// goverter:extend " + fn + "\ntype " + nm + " interface {\n\t// goverter:context ctxa\n\tConvert(source In, ctxa string) Out2\n}\n\n" +
 				doc + "func " + fn + "(s int, ctxv string) string { return ctxv }\n"
-			effs = append(effs, eff{nm, src, !detached && !star, fmt.Sprintf("custom-function context comment form=%s detached=%v", form.name, detached)})
+			effs = append(effs, eff{nm, src, !detached && !star, fmt.Sprintf("custom-function context comment form=%s detached=%v", form.name, detached), ""})
 		}
 	}
 	// a context comment on one custom function must not act as a setting for the function that follows it in the file
@@ -371,12 +372,23 @@ func c19Effects(run *ev.Run) (int, error) {
 		nm := fmt.Sprintf("X%03d", n)
 		effs = append(effs, eff{nm, "// goverter:converter\n// goverter:extend LeakB\ntype " + nm + " interface {\n\t// goverter:context ctxa\n\tConvert(source In, ctxa string) Out2\n}\n\n" +
 			"// goverter:context ctxv\nfunc LeakA(s int64, ctxv string) string { return ctxv }\n\nfunc LeakB(s int, ctxv string) string { return ctxv }\n", false,
-			"context comment of the preceding function must not apply to the next function"})
+			"context comment of the preceding function must not apply to the next function", ""})
 		n++
 		nm = fmt.Sprintf("X%03d", n)
 		effs = append(effs, eff{nm, "// goverter:converter\n// goverter:extend LeakD\ntype " + nm + " interface {\n\t// goverter:context ctxa\n\tConvert(source In, ctxa string) Out2\n}\n\n" +
 			"func LeakC(s int64, ctxv string) string { return ctxv }\n\n// goverter:context ctxv\nfunc LeakD(s int, ctxv string) string { return ctxv }\n\nfunc LeakE(s int32, ctxv string) string { return ctxv }\n", true,
-			"control: the function carrying the context comment itself"})
+			"control: the function carrying the context comment itself", ""})
+	}
+	// the value of a setting is the text after the FIRST space, verbatim: further leading spaces belong to the value
+	for _, form := range c19Forms() {
+		if form.name == "block-stars" {
+			continue
+		}
+		n++
+		nm := fmt.Sprintf("X%03d", n)
+		doc := form.render([]string{"goverter:converter", "goverter:ignoreMissing", "goverter:output:raw const Usage" + nm + " = `usage:", "goverter:output:raw     -x  enable x", "goverter:output:raw `"}, "")
+		effs = append(effs, eff{name: nm, src: doc + "type " + nm + " interface {\n\tConvert(source In) Out\n}\n", wantOK: true,
+			desc: "value-verbatim output:raw form=" + form.name, wantText: "usage:\n    -x  enable x\n`"})
 	}
 	var b strings.Builder
 	b.WriteString("package eff\n\n" + types + "\n")
@@ -402,6 +414,21 @@ func c19Effects(run *ev.Run) (int, error) {
 		if (out.Kind == drive.Files) != e.wantOK && out.Kind != drive.Panic {
 			run.Report(ev.Violation{Site: "effect:" + layoutClass(strings.ReplaceAll(e.desc, " ", " form=")), Symptom: fmt.Sprintf("generation-ok=%v-expected=%v", out.Kind == drive.Files, e.wantOK),
 				Detail: fmt.Sprintf("%s\n%s\n%s", e.desc, e.src, out.Diag), Case: map[string]any{"kind": "c19-effect", "desc": e.desc, "source": e.src}})
+		}
+		if e.wantText != "" && out.Kind == drive.Files {
+			found := false
+			var all strings.Builder
+			for _, c := range out.Files {
+				all.Write(c)
+				if strings.Contains(string(c), e.wantText) {
+					found = true
+				}
+			}
+			if !found {
+				run.Report(ev.Violation{Site: "effect:" + layoutClass(e.desc), Symptom: "setting-value-not-verbatim",
+					Detail: fmt.Sprintf("%s: the output does not contain %q (the value is the text after the first space)\n%s\n--- output:\n%s", e.desc, e.wantText, e.src, firstN(all.String(), 1500)),
+					Case:   map[string]any{"kind": "c19-effect", "desc": e.desc, "source": e.src}})
+			}
 		}
 	}
 	return len(effs), nil
